@@ -34,7 +34,7 @@ def scenarios(ctx: Ctx) -> List[Tuple[str, List[Tuple[str, List[cc.Event], bool]
     out.append(("two-writers-different-text", two_diff, "enum"))
     out.append(("reader-vs-writer", list(cc.reader_scenarios()), "enum"))
     rnd = []
-    for k in range(ctx.n(120, 5000)):
+    for k in range(ctx.n(120, 2500)):
         nproc = 3 if k % 2 == 0 else ctx.rng.choice([2, 4, 5])
         rnd.append((f"random-{k}", cc.random_schedule(ctx.rng, nproc, ctx.rng.randint(15, 70)), ctx.rng.random() < 0.5))
     out.append(("random-3-procs", rnd, "enum"))
